@@ -319,8 +319,48 @@ def area2(r):
     return sum(a[0] * b[1] - b[0] * a[1] for a, b in zip(pts, pts[1:] + pts[:1]))
 
 
-def rand_ring(rng, cx, cy, rad, n, zmode=None, closed=None, orient=None):
-    """star-shaped ring on the quarter grid with non-zero area; random start, winding, closing"""
+ZS = [0.25, 5.0, -3.5, 100.0]
+REPEAT_P = 0.35
+REPEAT_PATTERNS = ['first', 'interior', 'triple', 'last', 'two', 'all', 'zonly', 'zonly-first']
+
+
+def with_repeats(rng, ring, pattern=None):
+    """an OPEN ring (list of (lon, lat, z)) with some vertex written several times IN A ROW.
+    Mechanism class: anything between the constructor and the exported / re-imported document that
+    normalises a coordinate sequence (drops 'redundant' consecutive positions, de-duplicates, simplifies):
+    the outline, `==`, linear_rings, WKT, GeoJSON and the Shapely form all keep every vertex the caller gave.
+    'zonly*' repeats the position with another Z: those two are DIFFERENT coordinates (Coordinate.__eq__
+    compares Z), so not even a writer that merges equal neighbours may merge them."""
+    out = list(ring)
+    pat = pattern or rng.choice(REPEAT_PATTERNS)
+    if pat.startswith('zonly') and out[0][2] is None:
+        pat = 'first' if pat == 'zonly-first' else 'interior'
+    i = rng.randrange(1, len(out)) if len(out) > 1 else 0
+    if pat == 'first':
+        out[0:1] = [out[0]] * 2
+    elif pat == 'interior':
+        out[i:i + 1] = [out[i]] * 2
+    elif pat == 'triple':
+        out[i:i + 1] = [out[i]] * rng.choice([3, 3, 4])
+    elif pat == 'last':
+        out.append(out[-1])
+    elif pat == 'two':
+        out[i:i + 1] = [out[i]] * 2
+        out[0:1] = [out[0]] * rng.choice([2, 3])
+    elif pat == 'all':
+        out = [c for c in out for _ in (0, 1)]
+    else:
+        j = 0 if pat == 'zonly-first' else i
+        x, y, z = out[j]
+        out[j:j + 1] = [out[j], (x, y, rng.choice([v for v in ZS if v != z]))]
+    return out
+
+
+def rand_ring(rng, cx, cy, rad, n, zmode=None, closed=None, orient=None, repeats=0):
+    """star-shaped ring on the quarter grid with non-zero area; random start, winding, closing; with probability
+    `repeats` (C13 / C14 pass REPEAT_P; 0 = never, and then the random stream is the one other users of this
+    generator have always seen) the ring has consecutive repeated vertices (with_repeats), and a closed ring
+    may also write its closing vertex twice"""
     for _ in range(50):
         angs = sorted(rng.uniform(0, 2 * math.pi) for _ in range(n))
         pts = []
@@ -337,10 +377,15 @@ def rand_ring(rng, cx, cy, rad, n, zmode=None, closed=None, orient=None):
         pts.reverse()
     z = None
     if zmode == 'z':
-        z = rng.choice([0.25, 5.0, -3.5, 100.0])
+        z = rng.choice(ZS)
     out = [(x, y, z) for x, y in pts]
+    rep = bool(repeats) and rng.random() < repeats
+    if rep:
+        out = with_repeats(rng, out)
     if (rng.random() < 0.7) if closed is None else closed:
         out.append(out[0])
+        if rep and rng.random() < 0.2:
+            out.append(out[0])          # [A, ..., A, A]: the closing vertex twice
     return out
 
 
@@ -355,10 +400,19 @@ def rand_coord(rng, zmode=None):
     return (rng.randrange(-179 * S, 179 * S + 1) / S, rng.randrange(-89 * S, 89 * S + 1) / S, z)
 
 
+def rand_path(rng, n, zmode=None):
+    """vertices of a linestring; some (REPEAT_P / 2) stand still for a step or more (same mechanism class as
+    with_repeats: a path is the sequence of vertices it was given)"""
+    vs = [rand_coord(rng, zmode) for _ in range(n)]
+    if rng.random() < REPEAT_P / 2:
+        vs = with_repeats(rng, vs, rng.choice(['first', 'interior', 'triple', 'last', 'zonly']))
+    return vs
+
+
 def rand_poly_spec(rng, zmode=None, nholes=None):
     cx, cy = rand_center(rng)
     rad = rng.choice([1.0, 3.0, 8.0, 15.0])
-    p = {'o': rand_ring(rng, cx, cy, rad, rng.randint(3, 8), zmode)}
+    p = {'o': rand_ring(rng, cx, cy, rad, rng.randint(3, 8), zmode, repeats=REPEAT_P)}
     nh = rng.choice([0, 0, 1, 2]) if nholes is None else nholes
     hs = []
     for j in range(nh):
@@ -367,7 +421,7 @@ def rand_poly_spec(rng, zmode=None, nholes=None):
             # a hole's Z is independent of the shell's: shell 2-D with a 3-D hole and the other way round
             # (mechanism class: dimension decided from the shell and applied to every ring)
             hs.append({'o': rand_ring(rng, round(hx * S) / S, hy, max(rad * 0.2, 0.75), rng.randint(3, 5),
-                                      rng.choice([None, zmode, 'z']))})
+                                      rng.choice([None, zmode, 'z']), repeats=REPEAT_P)})
         else:
             x0, y0 = round(hx * S) / S, hy
             hs.append({'box': ((x0, y0 + 0.5, None), (x0 + 0.5, y0, None))})
@@ -390,7 +444,7 @@ def rand_spec(rng, kind, zmode=None):
     if kind == 'point':
         sp = {'kind': 'point', 'c': rand_coord(rng, zmode)}
     elif kind == 'line':
-        sp = {'kind': 'line', 'vs': [rand_coord(rng, zmode) for _ in range(rng.randint(2, 6))]}
+        sp = {'kind': 'line', 'vs': rand_path(rng, rng.randint(2, 6), zmode)}
     elif kind == 'poly':
         sp = dict(rand_poly_spec(rng, zmode), kind='poly')
     elif kind == 'mpoint':
@@ -401,8 +455,7 @@ def rand_spec(rng, kind, zmode=None):
                 cs.append(c)
         sp = {'kind': 'mpoint', 'cs': cs}
     elif kind == 'mline':
-        sp = {'kind': 'mline', 'ls': [[rand_coord(rng, zmode) for _ in range(rng.randint(2, 5))]
-                                      for _ in range(rng.randint(1, 4))]}
+        sp = {'kind': 'mline', 'ls': [rand_path(rng, rng.randint(2, 5), zmode) for _ in range(rng.randint(1, 4))]}
     elif kind == 'mpoly':
         sp = {'kind': 'mpoly', 'ps': [rand_poly_spec(rng, zmode) for _ in range(rng.randint(1, 4))]}
     elif kind == 'box':
@@ -411,7 +464,7 @@ def rand_spec(rng, kind, zmode=None):
         z1, z2 = (rng.choice([None, 2.0]), rng.choice([None, 3.0, 0.0])) if zmode else (None, None)
         sp = {'kind': 'box', 'nw': (x, y + h, z1), 'se': (x + w, y, z2)}
         if rng.random() < 0.4:
-            sp['holes'] = [{'o': rand_ring(rng, x + w / 2, y + h / 2, 0.75, 4, rng.choice([None, zmode, 'z']))}]
+            sp['holes'] = [{'o': rand_ring(rng, x + w / 2, y + h / 2, 0.75, 4, rng.choice([None, zmode, 'z']), repeats=REPEAT_P)}]
     else:
         raise KeyError(kind)
     sp['dt'] = rng.choice(DTS)
@@ -441,6 +494,57 @@ def curved_corpus():
     out.append({'kind': 'circle', 'c': (10.125, 10.125, None), 'r': 50000.0, 'holes': [sqhz]})
     out.append({'kind': 'ring', 'c': (10.125, 10.125, None), 'r0': 30000.0, 'r1': 60000.0, 'holes': [sqhz]})
     out.append({'kind': 'ellipse', 'c': (10.125, 10.125, None), 'a': 90000.0, 'b': 50000.0, 'rot': 45.0, 'holes': [sqhz]})
+    # pie slices: a wedge with inner radius 0 draws its centre once per arc step, i.e. its polygon form has a run of
+    # k + 1 identical vertices (same mechanism class as with_repeats); appended last so the entries above keep their dt / props
+    out.append({'kind': 'wedge', 'c': (10.125, 10.125, None), 'r0': 0.0, 'r1': 50000.0, 'a0': 10.0, 'a1': 100.0})
+    out.append({'kind': 'wedge', 'c': (-120.5, 61.25, None), 'r0': 0.0, 'r1': 250.0, 'a0': 300.0, 'a1': 420.0})
+    out.append({'kind': 'wedge', 'c': (179.0, 0.0, None), 'r0': 0.0, 'r1': 1000.0, 'a0': 45.0, 'a1': 46.0})
+    out.append({'kind': 'wedge', 'c': (100.0, -45.0, 50.0), 'r0': 0.0, 'r1': 123456.0, 'a0': 0.0, 'a1': 359.0})
+    out.append({'kind': 'wedge', 'c': (10.125, 10.125, None), 'r0': 0.0, 'r1': 90000.0, 'a0': 0.0, 'a1': 90.0, 'holes': [sqh]})
+    for j, sp in enumerate(out):
+        sp['dt'] = DTS[j % len(DTS)]
+        sp['props'] = copy.deepcopy(PROPS[j % len(PROPS)])
+    return out
+
+
+def repeat_corpus():
+    """fixed corpus (every run, every seed): vertex-defined shapes whose rings / paths write a vertex several times in a row -
+    every REPEAT_PATTERN on a square shell (both windings, closed and not), with Z, in a hole, in one of two holes, in a
+    member of a multi-polygon, in a hole of a box, in linestrings.  On the quarter grid."""
+    def C(x, y, z=None):
+        return (x, y, z)
+    A, B, Cc, D = C(0.0, 0.0), C(4.0, 0.0), C(4.0, 4.0), C(0.0, 4.0)
+    h = [C(1.0, 1.0), C(2.0, 1.0), C(2.0, 2.0), C(1.0, 2.0)]
+    h2 = [C(2.5, 2.5), C(3.5, 2.5), C(3.0, 3.5)]
+    tri = [C(10.0, 10.0), C(11.0, 10.0), C(11.0, 11.0)]
+    rings = {
+        'first': [A, A, B, Cc, D, A], 'interior': [A, B, B, Cc, D, A], 'triple': [A, B, B, B, Cc, D, A], 'last': [A, B, Cc, D, D, A],
+        'closing-twice': [A, B, Cc, D, A, A], 'first-unclosed': [A, A, B, Cc, D], 'last-unclosed': [A, B, Cc, D, D],
+        'two': [A, A, B, Cc, Cc, D, A], 'all': [A, A, B, B, Cc, Cc, D, D, A, A], 'clockwise': [A, D, D, Cc, B, A],
+        'clockwise-first-unclosed': [A, A, D, Cc, B],
+    }
+    out = [{'kind': 'poly', 'o': r, 'label': 'shell:' + name} for name, r in rings.items()]
+    z = lambda r, v=7.25: [(x, y, v) for x, y, _ in r]      # noqa: E731
+    out.append({'kind': 'poly', 'o': z(rings['interior']), 'label': 'shell-z:interior'})
+    out.append({'kind': 'poly', 'o': z(rings['first']), 'label': 'shell-z:first'})
+    zo = z([A, B, Cc, D, A])
+    out.append({'kind': 'poly', 'o': zo[:2] + [(4.0, 0.0, 5.0)] + zo[2:], 'label': 'shell-z:z-only (different coordinates: all kept)'})
+    out.append({'kind': 'poly', 'o': [zo[0], (0.0, 0.0, 100.0)] + zo[1:], 'label': 'shell-z:z-only-first'})
+    sq = [A, B, Cc, D, A]
+    out.append({'kind': 'poly', 'o': sq, 'holes': [{'o': [h[0], h[1], h[1], h[2], h[3], h[0]]}], 'label': 'hole:interior'})
+    out.append({'kind': 'poly', 'o': sq, 'holes': [{'o': [h[0], h[0], h[1], h[2], h[3]]}], 'label': 'hole:first-unclosed'})
+    out.append({'kind': 'poly', 'o': sq, 'holes': [{'o': h + [h[0]]}, {'o': [h2[0], h2[1], h2[1], h2[1], h2[2], h2[0]]}],
+                'label': 'hole:triple in the second of two'})
+    out.append({'kind': 'poly', 'o': rings['two'], 'holes': [{'o': z([h[0], h[1], h[2], h[2], h[3], h[0]], 60.0)}],
+                'label': 'shell and 3-D hole'})
+    out.append({'kind': 'mpoly', 'ps': [{'o': rings['interior'], 'holes': [{'o': [h[0], h[1], h[2], h[3], h[3], h[0]]}]},
+                                        {'o': [tri[0], tri[0], tri[1], tri[2]]}], 'label': 'multi-polygon members'})
+    out.append({'kind': 'box', 'nw': C(0.0, 4.0), 'se': C(4.0, 0.0), 'holes': [{'o': [h[0], h[1], h[1], h[2], h[3], h[0]]}],
+                'label': 'box hole'})
+    out.append({'kind': 'line', 'vs': [A, B, B, Cc], 'label': 'line:interior'})
+    out.append({'kind': 'line', 'vs': [A, A, A, B], 'label': 'line:first'})
+    out.append({'kind': 'line', 'vs': z([A, B, Cc, Cc]), 'label': 'line-z:last'})
+    out.append({'kind': 'mline', 'ls': [[A, B, B], [Cc, Cc, D, A]], 'label': 'multi-linestring members'})
     for j, sp in enumerate(out):
         sp['dt'] = DTS[j % len(DTS)]
         sp['props'] = copy.deepcopy(PROPS[j % len(PROPS)])
@@ -551,6 +655,208 @@ def roundtrip_violations(spec, obj, ups):
     return bad
 
 
+# ------------------------------------------------------------------ import histories
+# Mechanism class: any state that outlives one import and is reachable from the next - a cache of decoded text, memoised
+# result shapes, containers of one import handed to another (shallow copies of `properties`), time bounds or property
+# dicts shared between results.  The statement makes the import a FUNCTION of the document ("importing the same document
+# twice gives equal results"): whatever the program does to the shapes it got from earlier imports - edit nested property
+# values in place through the public accessor, set_property, set_dt / strip_dt - a later import of the same (unchanged)
+# document still returns what the document says, and the earlier results keep the state their owner gave them.
+RESERVED = ('datetime_start', 'datetime_end')
+TEXT_ROUTES = ('text', 'text-copy', 'text-spaced', 'fresh-dict')      # the caller keeps no dict that a result could alias
+DICT_ROUTES = ('dict', 'type-dict')                                   # imports of one long-lived dict object
+EDITS = ('nested', 'nested', 'top', 'dt', 'none')
+
+
+def rand_json(rng, depth):
+    """a JSON value over the model's alphabet (ints, quarter-grid floats, ASCII strings, booleans, null, arrays, objects)"""
+    if depth <= 0 or rng.random() < 0.3:
+        return rng.choice([1, -7, 0, 2.5, 0.25, 'x', 'tag', '', True, False, None])
+    if rng.random() < 0.5:
+        return [rand_json(rng, depth - 1) for _ in range(rng.randint(0, 3))]
+    return {f'{rng.choice("abcde")}{i}': rand_json(rng, depth - 1) for i in range(rng.randint(0, 3))}
+
+
+def rand_nested_props(rng):
+    """user properties with at least one nested list and one nested dict (lists in dicts in lists ... up to depth 3)"""
+    p = {'name': f'shape-{rng.randrange(100)}', 'tags': [rand_json(rng, 1) for _ in range(rng.randint(0, 3))],
+         'meta': {'rev': rng.randrange(9), 'history': [rand_json(rng, 2) for _ in range(rng.randint(0, 2))]}}
+    for i in range(rng.randint(0, 2)):
+        p[f'p{i}'] = rand_json(rng, 3)
+    if rng.random() < 0.3:
+        p['seen'] = [T_A, {'at': T_B}]           # datetime values: text in the document
+    return p
+
+
+def containers(v):
+    """every list / dict strictly inside a mapping or sequence (the objects an in-place edit can reach)"""
+    out = []
+    for x in (v.values() if isinstance(v, dict) else v):
+        if isinstance(x, (list, dict)):
+            out.append(x)
+            out += containers(x)
+    return out
+
+
+def edit_nested(hr, shape):
+    """in-place edits of nested property values, reached the way user code reaches them: shape.properties[...]"""
+    cs = containers(shape.properties)
+    done = []
+    if not cs:
+        return done
+    for c in hr.sample(cs, hr.randint(1, len(cs))):
+        if isinstance(c, list):
+            op = hr.choice(['append', 'insert', 'pop', 'clear', 'reverse', 'setitem'])
+            if op == 'append':
+                c.append('edited-after-import')
+            elif op == 'insert':
+                c.insert(0, {'by': 'x', 'n': 999})
+            elif op == 'pop' and c:
+                c.pop()
+            elif op == 'clear':
+                c.clear()
+            elif op == 'reverse' and len(c) > 1 and c != c[::-1]:
+                c.reverse()
+            elif op == 'setitem' and c:
+                c[0] = 'changed'
+            else:
+                c.append(None)
+                op = 'append-null'
+        else:
+            op = hr.choice(['new-key', 'overwrite', 'delete', 'clear'])
+            if op == 'overwrite' and c:
+                c[next(iter(c))] = 'changed'
+            elif op == 'delete' and c:
+                del c[next(iter(c))]
+            elif op == 'clear' and c:
+                c.clear()
+            else:
+                c['edited'] = [1]
+                op = 'new-key'
+        done.append(op)
+    return done
+
+
+def shape_state(s):
+    """everything the owner of an imported shape can observe of it (deep copy)"""
+    return (copy.deepcopy(s._properties), None if s.dt is None else (s.dt.start, s.dt.end), s.to_wkt())
+
+
+def make_history_doc(specs, style, fc):
+    """the document under test and what it says: built from specs; the truth is the specs' shapes (never handed to
+    anything else) and an independent decoding of the text"""
+    objs = [build(sp, style + j) for j, sp in enumerate(specs)]
+    g = FeatureCollection(objs).to_geojson() if fc else objs[0].to_geojson()
+    return {'objs': objs, 'g': g, 'g0': copy.deepcopy(g), 'text': json.dumps(g), 'fc': fc, 'cls': None if fc else SIMPLE[specs[0]['kind']]}
+
+
+def run_import_history(docs, steps, hseed):
+    """steps: (doc index, route, edit).  Returns ([(clause, detail)], counters)."""
+    import random
+    hr = random.Random(hseed)
+    bad, counts = [], {}
+    earlier = []          # (label, shapes, [state after its owner's edit])
+    imported = [0] * len(docs)
+
+    def truth(d):
+        doc = json.loads(d['text'])             # independent decoder, every time
+        feats = doc['features'] if d['fc'] else [doc]
+        return [{k: v for k, v in (f.get('properties') or {}).items() if k not in RESERVED} for f in feats]
+
+    def do_import(d, route):
+        if route == 'text':
+            return parse_geojson(d['text'])
+        if route == 'text-copy':
+            return parse_geojson((d['text'] + ' ')[:-1])           # an equal string, another object
+        if route == 'text-spaced':
+            return parse_geojson(json.dumps(json.loads(d['text']), indent=1))       # the same document, other text
+        if route == 'fresh-dict':
+            return parse_geojson(json.loads(d['text']))
+        if route == 'dict':
+            return parse_geojson(d['g'])
+        return (FeatureCollection if d['fc'] else d['cls']).from_geojson(d['g'])
+
+    for n, (di, route, edit) in enumerate(steps):
+        d = docs[di]
+        label = f'step {n}: import of document {di} ({route})'
+        r = guarded(lambda: do_import(d, route))
+        if r[0] != 'Ok':
+            bad.append(('geojson_roundtrip', f'{label} raised {r[1]}'))
+            continue
+        shapes = list(r[1].geoshapes) if d['fc'] else [r[1]]
+        clause = 'import_twice_equal' if imported[di] else 'geojson_roundtrip'
+        imported[di] += 1
+        want = truth(d)
+        if len(shapes) != len(d['objs']):
+            bad.append((clause, f'{label}: {len(shapes)} shapes, the document has {len(d["objs"])}'))
+            continue
+        for j, (b, o, w) in enumerate(zip(shapes, d['objs'], want)):
+            pub = {k: v for k, v in b.properties.items() if k not in RESERVED}
+            if b._properties != w or pub != w:
+                bad.append((clause, f'{label}: feature {j} has properties {pub}, the document says {w}'))
+            if b.dt != o.dt:
+                bad.append((clause, f'{label}: feature {j} has dt {b.dt}, the document says {o.dt}'))
+            if not (b == o and o == b):
+                bad.append((clause, f'{label}: feature {j} != the shape the document was written from'))
+        if d['g'] != d['g0']:
+            bad.append(('import_pure', f'{label} modified the caller\'s document'))
+            d['g'] = copy.deepcopy(d['g0'])
+        for elabel, eshapes, estates in earlier:
+            if [shape_state(x) for x in eshapes] != estates:
+                bad.append(('import_twice_equal', f'{label} changed the result of {elabel}'))
+        # the owner of this result now uses it
+        if edit == 'nested' and route in DICT_ROUTES:
+            edit = 'top'        # (nested values of a dict import are the caller's own objects on the unchanged tree: reported, not judged here)
+        done = []
+        for b in shapes:
+            if edit == 'nested':
+                done += edit_nested(hr, b)
+            elif edit == 'top':
+                b.set_property('edited', n)
+                for k in list(b._properties)[:1]:
+                    b.set_property(k, 'overwritten')
+            elif edit == 'dt':
+                if b.dt is None or hr.random() < 0.5:
+                    b.set_dt(mkdt((7 + n, 9 + n)))
+                else:
+                    b.strip_dt()
+        counts[f'{route}:{edit}'] = counts.get(f'{route}:{edit}', 0) + 1
+        if d['g'] != d['g0']:
+            bad.append(('import_pure', f'after {label}, editing the imported shape ({edit}: {done}) changed the caller\'s document'))
+            d['g'] = copy.deepcopy(d['g0'])
+        for elabel, eshapes, estates in earlier:
+            if [shape_state(x) for x in eshapes] != estates:
+                bad.append(('import_twice_equal', f'editing the result of {label} ({edit}: {done}) changed the result of {elabel}'))
+        earlier.append((label, shapes, [shape_state(x) for x in shapes]))
+    return bad, counts
+
+
+def rand_history(rng, quick):
+    """1-3 documents (single features of every kind, collections), each imported 3-6 times, interleaved.  Every document
+    is first imported from text and its nested property values edited in place, then imported from text again."""
+    kinds = ['point', 'line', 'poly', 'mpoint', 'mline', 'mpoly']
+    dspecs = []
+    for _ in range(rng.choice([1, 1, 2, 3])):
+        fc = rng.random() < 0.3
+        specs = [rand_spec(rng, rng.choice(kinds)) for _ in range(rng.randint(1, 3) if fc else 1)]
+        for sp in specs:
+            sp['props'] = rand_nested_props(rng)
+            if has_z0(sp):
+                sp.update(rand_spec(rng, 'point'), props=sp['props'])
+        dspecs.append({'specs': specs, 'style': rng.randrange(6), 'fc': fc})
+    per_doc = []
+    for di in range(len(dspecs)):
+        seq = [(di, 'text', 'nested'), (di, rng.choice(['text', 'text-copy']), rng.choice(EDITS))]
+        seq += [(di, rng.choice(TEXT_ROUTES + DICT_ROUTES), rng.choice(EDITS)) for _ in range(rng.randint(1, 4))]
+        seq.append((di, rng.choice(['text', 'dict']), 'none'))
+        per_doc.append(seq)
+    steps = []
+    while any(per_doc):
+        seq = rng.choice([q for q in per_doc if q])
+        steps.append(seq.pop(0))
+    return dspecs, steps, rng.randrange(2 ** 32)
+
+
 # ------------------------------------------------------------------ main
 def main():
     ck = Check('C14')
@@ -602,10 +908,10 @@ def main():
         cx, cy = rand_center(rng)
         if rng.random() < 0.15:
             cx = rng.choice([175.0, -175.0, 178.0])
-            r = rand_ring(rng, cx, cy, 8.0, rng.randint(3, 7), rng.choice([None, 'z']))
+            r = rand_ring(rng, cx, cy, 8.0, rng.randint(3, 7), rng.choice([None, 'z']), repeats=REPEAT_P)
             r = [(((x + 180) % 360) - 180, y, z) for x, y, z in r]      # wrapped into [-180, 180)
         else:
-            r = rand_ring(rng, cx, cy, rng.choice([1.0, 4.0, 15.0]), rng.randint(3, 8), rng.choice([None, None, 'z']))
+            r = rand_ring(rng, cx, cy, rng.choice([1.0, 4.0, 15.0]), rng.randint(3, 8), rng.choice([None, None, 'z']), repeats=REPEAT_P)
         if rng.random() < 0.1:       # degenerate: flatten onto one latitude
             r = [(x, r[0][1], z) for x, y, z in r]
         rings.append(r)
@@ -665,6 +971,7 @@ def main():
                                  {'o': [(20.0, 20.0, None), (20.0, 21.0, None), (21.0, 21.0, None), (20.0, 20.0, None)]}],
          'dt': (0, 4), 'props': {'a': 1}},
     ]
+    specs += repeat_corpus()     # consecutive repeated vertices (fixed; the seeded specs above carry random ones)
     exported_docs = []
     for n, spec in enumerate(specs):
         kind = spec['kind']
@@ -802,6 +1109,43 @@ def main():
                         for b, o in zip(back, coll.geoshapes))):
                     pyviol.append((m, 'geojson_roundtrip', f'collection import ({how}) differs from the collection'))
         exported_docs.append(('fc', g))
+
+    # ---- 4b. import histories (see run_import_history): repeated imports of one document with the earlier results in use
+    hist_counts = {}
+    fixed_hist = [   # every run: one feature / a collection, text - nested edit - text; dict - top-level edit - dict; dt edits
+        ([{'specs': [{'kind': 'point', 'c': (1.0, 2.0, None), 'dt': 3, 'props': {'name': 'shape-3', 'tags': ['a', 'b'],
+                                                                                 'meta': {'rev': 1, 'history': [{'by': 'x', 'n': 1}]}}}],
+           'style': 0, 'fc': False}],
+         [(0, 'text', 'nested'), (0, 'text', 'nested'), (0, 'text-copy', 'dt'), (0, 'dict', 'top'), (0, 'type-dict', 'dt'), (0, 'dict', 'none'),
+          (0, 'fresh-dict', 'nested'), (0, 'text-spaced', 'nested'), (0, 'text', 'none')], 1),
+        ([{'specs': [{'kind': 'poly', 'o': [(0.0, 0.0, None), (4.0, 0.0, None), (4.0, 4.0, None)], 'dt': (1, 5), 'props': {'l': [[1], {'k': [2]}]}},
+                     {'kind': 'line', 'vs': [(0.0, 0.0, None), (1.0, 1.0, None)], 'dt': None, 'props': {'d': {'e': {}}, 'n': None}}],
+           'style': 1, 'fc': True}],
+         [(0, 'text', 'nested'), (0, 'text-copy', 'nested'), (0, 'type-dict', 'top'), (0, 'dict', 'dt'), (0, 'text', 'dt'), (0, 'text', 'none')], 2),
+    ]
+    hists = fixed_hist + [rand_history(rng, quick) for _ in range(40 if quick else 400)]
+    for hn, (dspecs, steps, hseed) in enumerate(hists):
+        docs = [make_history_doc(ds['specs'], ds['style'], ds['fc']) for ds in dspecs]
+        m = {'op': 'import_history', 'kind': 'history', 'docs': dspecs, 'steps': steps, 'hseed': hseed}
+        hbad, hc = run_import_history(docs, steps, hseed)
+        for cl, d_ in hbad:
+            pyviol.append((m, cl, d_))
+        for k_, v_ in hc.items():
+            hist_counts[k_] = hist_counts.get(k_, 0) + v_
+        ck.count('import-history')
+        nontrivial.add(('history', json.dumps(dspecs, sort_keys=True, default=str), json.dumps(steps)))
+        # ... and the model's reading of the (independently decoded) document against one more import from text
+        for di, d in enumerate(docs):
+            before = json.loads(d['text'])
+            r = guarded(lambda: parse_geojson(d['text']))
+            add(f'KParse {jlit(before, Q)} {reslit(r, lambda s: obs_parsed(s, Q))} {jlit(before, Q)}',
+                dict(m, op='parse-after-history', doc_index=di, doc=before))
+    ck.cov['import_history_steps'] = dict(sorted(hist_counts.items()))
+    # observed, not judged (reported): a dict import hands the caller's own nested property values to the shape
+    probe = {'type': 'Feature', 'geometry': {'type': 'Point', 'coordinates': [1.0, 2.0]}, 'properties': {'tags': ['a']}}
+    GeoPoint.from_geojson(probe).properties['tags'].append('b')
+    ck.count('observed: nested property values of a dict import are the caller\'s objects'
+             if probe['properties']['tags'] == ['a', 'b'] else 'observed: a dict import copies nested property values')
 
     # ---- 5. import: model vs implementation on exported documents and on a fixed corpus of edge documents
     sq = [[0.0, 0.0], [1.0, 0.0], [1.0, 1.0], [0.0, 1.0], [0.0, 0.0]]
@@ -953,7 +1297,13 @@ def main():
                    'kind (point, line, polygon with 0-2 holes incl. box holes, the three multi forms, box) x dt {none, instant, '
                    'interval; aware/naive/offset} x properties (nested, overridden, reserved keys) x Z x k {None,4,9} x extra kwargs '
                    'exported, the export imported by Type.from_geojson and parse_geojson (dict, twice, text), collections and '
-                   'tracks; fixed corpora: curved shapes (circle, ellipse, ring, wedge, with holes) x k, 60 edge/malformed documents. '
+                   'tracks; about a third of the rings (and a sixth of the paths) write a vertex several times in a row (first, interior, '
+                   'tripled, last, closing vertex twice, every vertex, a repeat differing only in Z), plus a fixed corpus of those; import '
+                   'histories: 1-3 documents (features, collections, nested random properties) imported 3-6 times each, interleaved, from '
+                   'text / an equal string / re-spaced text / a fresh dict / the caller\'s dict / Type.from_geojson, the earlier results '
+                   'edited in place between imports (nested property values through .properties, set_property, set_dt / strip_dt): every '
+                   'import equals the document (independent json.loads + the spec), no earlier result and not the caller\'s dict change; '
+                   'fixed corpora: curved shapes (circle, ellipse, ring, wedge, pie slices with inner radius 0, with holes) x k, 60 edge/malformed documents. '
                    'non-trivial = distinct (ring | shape spec, override, k | curved spec, k | edge document)',
               assumptions=['coordinates are in canonical range (Coordinate.__init__ wrapping is the identity; C08)',
                            'quarter-degree grid: the float arithmetic of is_counter_clockwise is exact there',
@@ -981,6 +1331,13 @@ def replay(path):
         print('RFC-shape violations now:', rfc_shape_violations(g))
         if spec['kind'] in SIMPLE:
             print('round-trip violations now:', roundtrip_violations(spec, obj, m.get('ups')))
+    elif m.get('op') in ('import_history', 'parse-after-history'):
+        dspecs = [{'specs': [tup(sp) for sp in ds['specs']], 'style': ds['style'], 'fc': ds['fc']} for ds in m['docs']]
+        docs = [make_history_doc(ds['specs'], ds['style'], ds['fc']) for ds in dspecs]
+        hb = run_import_history(docs, [tuple(st) for st in m['steps']], m['hseed'])[0]
+        print(f'import history replayed ({len(m["steps"])} steps): {len(hb)} violation(s) now')
+        for cl, d_ in hb:
+            print('  ', cl, '-', d_[:600])
     elif 'doc' in m:
         doc = copy.deepcopy(m['doc'])
         print('parse_geojson now:', guarded(lambda: parse_geojson(doc)), 'document unchanged:', doc == m['doc'])
